@@ -245,6 +245,15 @@ def modulator_tables(repo: Repo, ci: ClassInfo, M_: int, gray: bool):
 
     mc = ci.module.classes.get(ci.name.replace("Demodulator", "Modulator"))
     cc = mc.find_method("_create_constellation") if mc is not None else None
+    if cc is None and mc is not None and mc.methods.get("__init__") is not None:
+        # a fixed-order scheme whose tables are written in the constructor (QPSK)
+        from .c14 import fold_buffers
+
+        bufs = fold_buffers(mc, "__init__", {"normalize": False}, {"self.normalize": False})
+        pts, bp = bufs.get("constellation"), bufs.get("bit_patterns")
+        if isinstance(pts, list) and isinstance(bp, list) and len(pts) == M_ == len(bp) and all(isinstance(z, (int, float, complex)) for z in pts) and all(isinstance(r_, list) for r_ in bp):
+            return [complex(z) for z in pts], bp
+        raise Unfoldable(f"the paired modulator's constructor does not give tables of order {M_}")
     if cc is None:
         raise Unfoldable("no paired modulator with a table constructor")
     funcs_m = {nm: f_.node for nm, f_ in ci.module.functions.items()}
@@ -289,17 +298,21 @@ def hard_nearest_tabulated(repo: Repo, ci: ClassInfo, fi: FuncInfo):
     funcs_d.update({f"self.{nm}": f_.node for nm, f_ in ci.methods.items() if nm not in ("forward", "__init__")})
     square = "QAM" in ci.name
     orders = (4, 16, 64, 256) if square else (2, 4, 8, 16, 32)
+    mc_ = ci.module.classes.get(ci.name.replace("Demodulator", "Modulator"))
+    fixed = mc_ is not None and mc_.find_method("_create_constellation") is None
+    if fixed:
+        orders = (4,)
     count = 0
     try:
-        for gray in (True, False):
+        for gray in ((True,) if fixed else (True, False)):
             for M_ in orders:
-                if M_ == orders[-1] and not gray:
+                if M_ == orders[-1] and not gray and not fixed:
                     continue
                 b = M_.bit_length() - 1
                 pts, bp = modulator_tables(repo, ci, M_, gray)
                 dmin = min(abs(p_ - q_) for i_, p_ in enumerate(pts) for q_ in pts[i_ + 1:]) if M_ > 1 else 1.0
                 ys = list(pts)
-                if M_ != orders[-1]:
+                if M_ != orders[-1] or fixed:
                     for p_ in pts:
                         ys += [p_ + 0.3 * dmin * d_ for d_ in (1, -1, 1j, -1j)]
                 attrs = {"self.modulator.constellation": pts, "self.modulator.bit_patterns": bp, "self.modulator.levels": [z.real for z in pts], "self.constellation": pts, "self.bit_patterns": bp, "self._bits_per_symbol": b, "self.bits_per_symbol": b, "self.order": M_, "self.gray_coding": gray, "self.normalize": False}
